@@ -15,7 +15,7 @@ from ..cfg import CFG, EXIT
 from ..core import Ctx
 from ..model import AnalysisError, FuncInfo, dotted, kwarg, norm, walk_no_nested
 from ..zones import ZUnsupported, box_contains, nonneg, pair_domain, range_bounds, to_lin
-from .common import assigned_value, enclosing, is_cmp, stores_to
+from .common import assigned_value, conditions_at, enclosing, expand_locals, is_cmp, stores_to
 
 CAND = "AbstractDissimilarity._get_all_valid_alignments"
 PAIRK = "AbstractDissimilarity._compute_alignment_disorders"
@@ -128,10 +128,12 @@ def check_pair_kernel(ctx: Ctx, rules: Dict[str, str]):
     Lj = [n for n in Li.body if isinstance(n, ast.For)][0]
     if len(Li.body) == 2 and isinstance(Li.body[0], ast.If) and Li.body[1] is Lj:
         return _pair_kernel_counting_shape(ctx, k, f, L0, Li, Lj, rows, p_arr, p_dmat, p_delta, n_name, u, res)
-    if Li.body != [Lj]:
+    def pure_local(x) -> bool:
+        return isinstance(x, ast.Assign) and len(x.targets) == 1 and isinstance(x.targets[0], ast.Name) and \
+            all(isinstance(y, (ast.Name, ast.Subscript, ast.Constant, ast.Tuple, ast.Load, ast.Store, ast.UnaryOp, ast.USub, ast.Slice)) for y in ast.walk(x.value))
+    if not all(x is Lj or pure_local(x) for x in Li.body):
         return k.undecided("pair-loops", Li, "statements besides the inner pair loop: kernel shape not recognised (not a verdict)")
-    extra = [x for x in L0.body if x is not Li and not (isinstance(x, ast.Assign) and isinstance(x.targets[0], ast.Name) and norm(x.value) == f"{p_arr}[{u}]")
-             and not (isinstance(x, ast.AugAssign) and isinstance(x.op, ast.Div))]
+    extra = [x for x in L0.body if x is not Li and not pure_local(x) and not (isinstance(x, ast.AugAssign) and isinstance(x.op, ast.Div))]
     if extra:
         return k.undecided("pair-loops", extra[0], "statements besides the pair loops in the per-alignment body: kernel shape not recognised (not a verdict)")
     try:
@@ -142,51 +144,115 @@ def check_pair_kernel(ctx: Ctx, rules: Dict[str, str]):
             f"pair loops enumerate `{dom}` instead of all C(n,2) unordered pairs of distinct annotators "
             f"(self pairs add d(u,u)=0 but the normalisation no longer matches / pairs are missed)")
     i, j = Li.target.id, Lj.target.id
-    ifs = [n for n in Lj.body if isinstance(n, ast.If)]
-    if len(Lj.body) != 1 or len(ifs) != 1:
-        return k.undecided("pair-body", Lj, "pair body is not a single if/else")
-    I = ifs[0]
+    # ---- the pair body, evaluated once per (slot i empty?, slot j empty?) -------------------------------------------
+    import copy as _copy
 
-    def row_of(e: ast.AST) -> Optional[str]:
-        """ua[i, 3] / alignment_array[u][i][3] / alignment_array[u, i, 3] -> slot variable"""
-        t = norm(e)
-        for rv in list(rows) + [f"{p_arr}[{u}]"]:
-            for v in (i, j):
-                if t in (f"{rv}[{v}, 3]", f"{rv}[{v}][3]"):
-                    return v
-        for v in (i, j):
-            if t == f"{p_arr}[{u}, {v}, 3]":
-                return v
-        return None
-    sent = None
-    covered = set()
-    ok_test = isinstance(I.test, ast.BoolOp) and isinstance(I.test.op, ast.Or) and len(I.test.values) == 2
-    if ok_test:
-        for c in I.test.values:
-            if isinstance(c, ast.Compare) and len(c.ops) == 1 and isinstance(c.ops[0], ast.Eq):
-                rv = row_of(c.left)
-                cv = A_const(c.comparators[0])
-                if rv is not None and cv is not None:
-                    covered.add(rv)
-                    sent = cv if sent is None or sent == cv else "mixed"
-    k.check("empty-test", ok_test and covered == {i, j} and sent == -1, I.test,
+    class _Subst(ast.NodeTransformer):
+        def __init__(self, env):
+            self.env = env
+
+        def visit_Name(self, n):
+            if isinstance(n.ctx, ast.Load) and n.id in self.env:
+                return _copy.deepcopy(self.env[n.id])
+            return n
+
+    def flat(e: ast.AST):
+        """X[a][b, c] -> ('X', ['a', 'b', 'c']) ; None when the base is not a plain name"""
+        idx: List[str] = []
+        while isinstance(e, ast.Subscript):
+            sl = e.slice
+            idx = ([norm(x) for x in sl.elts] if isinstance(sl, ast.Tuple) else [norm(sl)]) + idx
+            e = e.value
+        return (e.id, idx) if isinstance(e, ast.Name) else None
+
+    def canon_ref(e: ast.AST, env) -> str:
+        """ROW(v) / CAT(v) for the row / category field of slot v of the current unitary alignment, else the substituted text"""
+        e2 = _Subst(env).visit(_copy.deepcopy(e))
+        fl_ = flat(e2)
+        if fl_ and fl_[0] == p_arr and len(fl_[1]) >= 2 and fl_[1][0] == u and fl_[1][1] in (i, j):
+            if len(fl_[1]) == 2:
+                return f"ROW({fl_[1][1]})"
+            if len(fl_[1]) == 3:
+                return f"FIELD{fl_[1][2]}({fl_[1][1]})"
+        return norm(e2)
+
+    class _Unknown(Exception):
+        pass
+
+    sentinels = set()
+
+    def truth(t: ast.AST, env, empty: Dict[str, bool]) -> bool:
+        if isinstance(t, ast.BoolOp):
+            vals = [truth(v, env, empty) for v in t.values]
+            return any(vals) if isinstance(t.op, ast.Or) else all(vals)
+        if isinstance(t, ast.UnaryOp) and isinstance(t.op, ast.Not):
+            return not truth(t.operand, env, empty)
+        if isinstance(t, ast.Compare) and len(t.ops) == 1 and isinstance(t.ops[0], (ast.Eq, ast.NotEq)):
+            l, r = t.left, t.comparators[0]
+            if A_const(l) is not None:
+                l, r = r, l
+            ref = canon_ref(l, env)
+            cv = A_const(r)
+            if cv is not None and ref in (f"FIELD3({i})", f"FIELD3({j})"):
+                sentinels.add(cv)
+                is_empty = empty[i if ref.endswith(f"({i})") else j]
+                return is_empty if isinstance(t.ops[0], ast.Eq) else not is_empty
+        raise _Unknown(norm(t))
+
+    def run_body(stmts, env, empty, added) -> bool:
+        """False when a `continue` ended the iteration"""
+        for st in stmts:
+            if pure_local(st):
+                env[st.targets[0].id] = _Subst(env).visit(_copy.deepcopy(st.value))
+            elif isinstance(st, ast.AugAssign) and isinstance(st.op, ast.Add) and canon_ref(st.target, env) in (f"{res}[{u}]",):
+                v = st.value
+                if isinstance(v, ast.Call) and not v.keywords:
+                    added.append((f"{canon_ref(v.func, env)}({', '.join(sorted(canon_ref(a, env) for a in v.args))})", st))
+                else:
+                    added.append((canon_ref(v, env), st))
+            elif isinstance(st, ast.If):
+                if not run_body(st.body if truth(st.test, env, empty) else st.orelse, env, empty, added):
+                    return False
+            elif isinstance(st, ast.Continue):
+                return False
+            else:
+                raise _Unknown(norm(st)[:80])
+        return True
+
+    base_env: Dict[str, ast.AST] = {}
+    try:
+        for x in L0.body:
+            if pure_local(x):
+                base_env[x.targets[0].id] = _Subst(base_env).visit(_copy.deepcopy(x.value))
+        for x in Li.body:
+            if pure_local(x) and Li.body.index(x) < Li.body.index(Lj):
+                base_env[x.targets[0].id] = _Subst(base_env).visit(_copy.deepcopy(x.value))
+        outcome = {}
+        for ei in (False, True):
+            for ej in (False, True):
+                added: list = []
+                run_body(Lj.body, dict(base_env), {i: ei, j: ej}, added)
+                outcome[(ei, ej)] = added
+    except _Unknown as e:
+        return k.undecided("pair-body", Lj, f"pair body contains `{e}`: shape not recognised (not a verdict)")
+    want_real = f"{p_dmat}({', '.join(sorted([f'ROW({i})', f'ROW({j})']))})"
+    first_if = next((n for n in Lj.body if isinstance(n, ast.If)), Lj)
+    ok_test = all((len(outcome[c]) == 1) for c in outcome) and sentinels == {-1} and \
+        all((outcome[c][0][0] == want_real) == (c == (False, False)) for c in outcome)
+    k.check("empty-test", ok_test, first_if.test if isinstance(first_if, ast.If) else first_if,
             "a pair counts delta_empty iff either slot's category field holds the empty-unit sentinel -1",
-            f"empty-unit test `{norm(I.test)}` does not test field 3 of both slots against the sentinel -1 written by _build_arrays_alignment")
-
-    def acc(stmts) -> Optional[ast.AST]:
-        if len(stmts) == 1 and isinstance(stmts[0], ast.AugAssign) and isinstance(stmts[0].op, ast.Add) and \
-                norm(stmts[0].target) == f"{res}[{u}]":
-            return stmts[0].value
-        return None
-    a_then, a_else = acc(I.body), acc(I.orelse)
-    k.check("empty-cost", a_then is not None and norm(a_then) == p_delta, I.body[0] if I.body else None,
-            "an empty slot contributes the delta_empty parameter", f"pair with an empty unit adds `{norm(a_then) if a_then is not None else '?'}` instead of delta_empty")
-    okd = False
-    if a_else is not None and isinstance(a_else, ast.Call) and norm(a_else.func) == p_dmat and len(a_else.args) == 2:
-        got = sorted(norm(x) for x in a_else.args)
-        cands = [sorted([f"{rv}[{i}]", f"{rv}[{j}]"]) for rv in list(rows) + [f"{p_arr}[{u}]"]] + [sorted([f"{p_arr}[{u}, {i}]", f"{p_arr}[{u}, {j}]"])]
-        okd = got in cands
-    k.check("real-cost", okd, I.orelse[0] if I.orelse else None, "a pair of real units contributes d_mat(row_i, row_j)",
+            f"the pair body does not separate (real, real) pairs from pairs with an empty unit by testing field 3 of both slots against the sentinel -1 "
+            f"written by _build_arrays_alignment: contributions by (slot i empty, slot j empty) = "
+            f"{ {c: [a for a, _ in v] for c, v in outcome.items()} }, sentinels tested {sorted(sentinels)}")
+    empties = [outcome[c] for c in outcome if c != (False, False)]
+    ok_empty = all(len(v) == 1 and v[0][0] == p_delta for v in empties)
+    bad_e = next((v[0] for v in empties if v and v[0][0] != p_delta), None)
+    k.check("empty-cost", ok_empty, bad_e[1] if bad_e else (empties[0][0][1] if empties and empties[0] else None),
+            "an empty slot contributes the delta_empty parameter",
+            f"pair with an empty unit adds `{bad_e[0] if bad_e else '?'}` instead of delta_empty")
+    rr = outcome[(False, False)]
+    okd = len(rr) == 1 and rr[0][0] == want_real
+    k.check("real-cost", okd, rr[0][1] if rr else None, "a pair of real units contributes d_mat(row_i, row_j)",
             "pair of real units does not add d_mat of the two slots' rows")
     # normalisation: exactly once by c2n
     divs = [n for n in walk_no_nested(f.node) if isinstance(n, ast.AugAssign) and isinstance(n.op, ast.Div)]
@@ -284,18 +350,27 @@ def check_sentinel_producer(ctx: Ctx, rule: str):
     """_build_arrays_alignment writes -1 in field 3 of a None slot (the slot numbering itself is irrelevant: the pair-sum is symmetric)"""
     f = ctx.fn("AbstractDissimilarity._build_arrays_alignment", rule)
     wrote = False
-    for n in walk_no_nested(f.node):
-        if isinstance(n, ast.If) and isinstance(n.test, ast.Compare) and isinstance(n.test.ops[0], (ast.IsNot, ast.Is)) and \
-                isinstance(n.test.comparators[0], ast.Constant) and n.test.comparators[0].value is None:
-            none_branch = n.orelse if isinstance(n.test.ops[0], ast.IsNot) else n.body
-            for s in none_branch:
-                if isinstance(s, ast.Assign) and isinstance(s.value, ast.Call) and norm(s.value.func) in ("np.array", "numpy.array"):
-                    lst = s.value.args[0]
-                    if isinstance(lst, (ast.List, ast.Tuple)) and len(lst.elts) == 4 and A_const(lst.elts[3]) == -1:
-                        wrote = True
-                elif isinstance(s, ast.Assign) and isinstance(s.targets[0], ast.Subscript) and A_const(s.value) == -1 and \
-                        norm(s.targets[0]).endswith(", 3]"):
-                    wrote = True
+    # a store into the array that happens exactly when the slot's unit is None (enclosing if/else, or after an `if unit is not None: ...; continue`)
+    for s in walk_no_nested(f.node):
+        if not (isinstance(s, ast.Assign) and len(s.targets) == 1 and isinstance(s.targets[0], ast.Subscript)):
+            continue
+        is_none = False
+        for t, truth in conditions_at(f.node, s):
+            if isinstance(t, ast.Compare) and len(t.ops) == 1 and isinstance(t.comparators[0], ast.Constant) and t.comparators[0].value is None:
+                if (isinstance(t.ops[0], ast.Is) and truth) or (isinstance(t.ops[0], ast.IsNot) and not truth):
+                    is_none = True
+        if not is_none:
+            continue
+        v = expand_locals(f.node, s.value)
+        if isinstance(v, ast.Call) and norm(v.func) in ("np.array", "numpy.array", "np.asarray") and v.args:
+            lst = v.args[0]
+            if isinstance(lst, (ast.List, ast.Tuple)) and len(lst.elts) == 4 and A_const(lst.elts[3]) == -1:
+                wrote = True
+        elif isinstance(v, ast.Call) and norm(v.func) in ("np.full", "numpy.full") and len(v.args) >= 2 and A_const(v.args[1]) == -1 and norm(v.args[0]) in ("4", "(4,)"):
+            wrote = True
+        elif A_const(v) == -1 and (norm(s.targets[0]).endswith(", 3]") or not norm(s.targets[0]).rstrip("]").split(",")[-1].strip().isdigit()):
+            # scalar -1 stored in field 3, or broadcast over the whole row
+            wrote = True
     ctx.check(wrote, rule, f, None, "an empty unit is written with category field -1 (the sentinel the kernel tests)",
               bad_detail="the array builder does not mark empty units with -1 in field 3", construct="None branch", key="sentinel-producer")
 
@@ -365,6 +440,13 @@ def check_extend(ctx: Ctx, rule: str):
             continue
         new = rets[0].value.id
         ndef = _single(f, new)
+        # every spelling of "the old length": len(arr), arr.shape[0], the first name of `a, b = arr.shape`, and single-definition locals equal to one of those
+        old_names = {f"len({arr})", f"{arr}.shape[0]"} | {norm(t.elts[0]) for s in f.node.body if isinstance(s, ast.Assign) and norm(s.value) == f"{arr}.shape"
+                                                            and isinstance((t := s.targets[0]), ast.Tuple) and t.elts}
+        for s in f.node.body:
+            if isinstance(s, ast.Assign) and len(s.targets) == 1 and isinstance(s.targets[0], ast.Name) and norm(s.value) in old_names and \
+                    len(stores_to(f.node, s.targets[0].id)) == 1:
+                old_names.add(s.targets[0].id)
         old_len = None
         shape_ok = False
         if isinstance(ndef, ast.Call) and norm(ndef.func) in ("np.empty", "np.zeros"):
@@ -373,8 +455,7 @@ def check_extend(ctx: Ctx, rule: str):
             try:
                 l = to_lin(first)
                 # first dim = old length + n
-                for cand in (f"len({arr})",) + tuple(norm(t.elts[0]) for s in f.node.body if isinstance(s, ast.Assign)
-                                                     and norm(s.value) == f"{arr}.shape" and isinstance((t := s.targets[0]), ast.Tuple)):
+                for cand in sorted(old_names):
                     if l == Lin.atom(cand) + Lin.atom(n):
                         old_len, shape_ok = cand, True
             except ZUnsupported:
@@ -385,7 +466,7 @@ def check_extend(ctx: Ctx, rule: str):
         if copies and old_len:
             sl = copies[0].targets[0].slice
             first = sl.elts[0] if isinstance(sl, ast.Tuple) else sl
-            copy_ok = isinstance(first, ast.Slice) and first.lower is None and first.upper is not None and norm(first.upper) == old_len
+            copy_ok = isinstance(first, ast.Slice) and first.lower is None and first.upper is not None and norm(first.upper) in old_names and first.step is None
         ctx.check(shape_ok and copy_ok, rule, f, copies[0] if copies else ndef,
                   "grown buffer has old length + n cells and its prefix [:old length] is the old content",
                   bad_detail=f"growth helper loses or misplaces already stored candidates (new length ok={shape_ok}, prefix copy ok={copy_ok})",
@@ -490,9 +571,10 @@ def check_candidates(ctx: Ctx, rules: Dict[str, str]):
             if isinstance(s, ast.Assign) and isinstance(s.targets[0], ast.Subscript) and isinstance(L.target, ast.Name):
                 a = L.target.id
                 tn = norm(s.targets[0])
-                if norm(s.value) == f"len({p_units}[{a}]) + 1" and tn.endswith(f"[{a}]"):
+                sv = norm(expand_locals(f.node, s.value, skip=(n_name, c2n_name)))
+                if sv in (f"len({p_units}[{a}]) + 1", f"1 + len({p_units}[{a}])") and tn.endswith(f"[{a}]"):
                     sizes_null = (norm(s.targets[0].value), L, s)
-                if norm(s.value) == f"len({p_units}[{a}])" and tn.endswith(f"[{a}]"):
+                if sv == f"len({p_units}[{a}])" and tn.endswith(f"[{a}]"):
                     sizes = (norm(s.targets[0].value), L, s)
     ok_sz = False
     if sizes_null:
@@ -515,10 +597,25 @@ def check_candidates(ctx: Ctx, rules: Dict[str, str]):
             "the enumeration is not driven by sizes_with_null")
     # ---- criterium
     flt = [s for s in ML.body if isinstance(s, ast.If)]
+    if flt and len(flt[0].body) == 1 and isinstance(flt[0].body[0], ast.Continue) and not flt[0].orelse:
+        flt = flt[:1]               # guard clause: what follows it is the kept-candidate path
     if len(flt) != 1:
         return k.undecided("filter", ML, "single filter `if disorder <= criterium` expected in the enumeration loop")
     FI = flt[0]
     t = FI.test
+    kept_body = FI.body
+    if len(FI.body) == 1 and isinstance(FI.body[0], ast.Continue) and not FI.orelse:
+        # guard clause: `if not (cost <= thr): continue` followed by the stores
+        kept_body = ML.body[ML.body.index(FI) + 1:]
+        if isinstance(t, ast.UnaryOp) and isinstance(t.op, ast.Not):
+            t = t.operand
+        elif isinstance(t, ast.Compare) and len(t.ops) == 1 and type(t.ops[0]) in (ast.Gt, ast.GtE, ast.Lt, ast.LtE):
+            inv = {ast.Gt: ast.LtE, ast.GtE: ast.Lt, ast.Lt: ast.GtE, ast.LtE: ast.Gt}
+            t = ast.copy_location(ast.Compare(left=t.left, ops=[inv[type(t.ops[0])]()], comparators=t.comparators), t)
+        else:
+            return k.undecided("filter", FI, "guard clause of the enumeration loop is not a comparison of the cost with a threshold")
+    elif FI.orelse or ML.body.index(FI) != len(ML.body) - 1:
+        return k.undecided("filter", FI, "statements after / besides the filter in the enumeration loop: shape not recognised (not a verdict)")
     if isinstance(t, ast.BoolOp):
         # the paper's cut combined with something else
         cuts = [v for v in t.values if isinstance(v, ast.Compare) and len(v.ops) == 1 and isinstance(v.ops[0], (ast.LtE, ast.Lt, ast.GtE, ast.Gt))]
@@ -567,7 +664,7 @@ def check_candidates(ctx: Ctx, rules: Dict[str, str]):
     # ---- cost accumulation
     cname = cost.id
     zero = [s for s in ML.body if isinstance(s, ast.Assign) and norm(s.targets[0]) == cname and A_const(s.value) == 0]
-    ploops = [s for s in ML.body if isinstance(s, ast.For)]
+    ploops = [s for s in ML.body[:ML.body.index(FI)] if isinstance(s, ast.For)]
     pre_name = None
     if len(zero) == 1 and len(ploops) == 1 and [x for x in ploops[0].body if isinstance(x, ast.For)]:
         Pa = ploops[0]
@@ -582,10 +679,7 @@ def check_candidates(ctx: Ctx, rules: Dict[str, str]):
         accs = [s for s in Pb.body if isinstance(s, ast.AugAssign) and norm(s.target) == cname and isinstance(s.op, ast.Add)]
         ok_term = False
         if len(accs) == 1:
-            v = accs[0].value
-            if isinstance(v, ast.Name):
-                loc = [x.value for x in Pb.body if isinstance(x, ast.Assign) and norm(x.targets[0]) == v.id]
-                v = loc[0] if len(loc) == 1 else v
+            v = expand_locals(f.node, accs[0].value, skip=(n_name, c2n_name, cname, tup))
             # precomputation[x][y][tup[x], tup[y]]
             if isinstance(v, ast.Subscript) and isinstance(v.slice, ast.Tuple) and len(v.slice.elts) == 2 and \
                     isinstance(v.value, ast.Subscript) and isinstance(v.value.value, ast.Subscript):
@@ -609,7 +703,7 @@ def check_candidates(ctx: Ctx, rules: Dict[str, str]):
     if pre_name:
         _check_matrices(ctx, k, f, pre_name, p_units, p_dmat, p_delta, n_name, sizes[0] if sizes else None, getattr(k, "facts", {}))
     # ---- append discipline and capacity
-    _check_append(ctx, k, f, ML, FI, cname, tup, n_name)
+    _check_append(ctx, k, f, ML, FI, kept_body, cname, tup, n_name)
     # ---- final slice and normalisation
     _check_final(ctx, k, f, ML, c2n_name, n_name)
 
@@ -711,9 +805,11 @@ def _check_matrices(ctx, k: K, f: FuncInfo, pre: str, p_units, p_dmat, p_delta, 
                     and isinstance(s.targets[0].slice, ast.Tuple) and len(s.targets[0].slice.elts) == 2:
                 r, c = s.targets[0].slice.elts
                 iv = []
-                for e in (r, c):
+                for axis, e in enumerate((r, c)):
                     if isinstance(e, ast.Name) and e.id in loops:
                         iv.append(loops[e.id] + (e.id,))
+                    elif isinstance(e, ast.Slice) and e.lower is None and e.upper is None and e.step is None:
+                        iv.append((Lin.num(0), (NA if axis == 0 else NB) + Lin.num(1), None))      # whole axis
                     else:
                         p = L(e, loops)
                         iv.append((p, p + Lin.num(1), None) if p is not None else None)
@@ -743,6 +839,7 @@ def _check_matrices(ctx, k: K, f: FuncInfo, pre: str, p_units, p_dmat, p_delta, 
         w = cover[-1]
         val = w[2].value
         if cname == "real x real":
+            val = expand_locals(f.node, val, skip=(n_name,))
             okv = isinstance(val, ast.Call) and norm(val.func) == p_dmat and len(val.args) == 2 and \
                 norm(val.args[0]) == f"{p_units}[{first_idx}][{w[0][2]}]" and norm(val.args[1]) == f"{p_units}[{second_idx}][{w[1][2]}]"
             if not okv:
@@ -758,8 +855,7 @@ def _check_matrices(ctx, k: K, f: FuncInfo, pre: str, p_units, p_dmat, p_delta, 
             "pair matrix is not fully/rightly initialised: " + "; ".join(msgs))
 
 
-def _check_append(ctx, k: K, f: FuncInfo, ML: ast.For, FI: ast.If, cname: str, tup: str, n_name: str):
-    body = FI.body
+def _check_append(ctx, k: K, f: FuncInfo, ML: ast.For, FI: ast.If, body: List[ast.stmt], cname: str, tup: str, n_name: str):
     st = [s for s in body if isinstance(s, ast.Assign) and isinstance(s.targets[0], ast.Subscript)]
     incs = [s for s in body if isinstance(s, ast.AugAssign) and isinstance(s.op, ast.Add) and A_const(s.value) == 1]
     if len(st) != 2 or len(incs) != 1:
@@ -810,9 +906,24 @@ def _check_append(ctx, k: K, f: FuncInfo, ML: ast.For, FI: ast.If, cname: str, t
                        "(numba does not bounds-check: silent memory corruption)")
     G = gif[0]
     t = G.test
-    okt = isinstance(t, ast.Compare) and len(t.ops) == 1 and (
-        (norm(t.left) == ivar and norm(t.comparators[0]) == cap and isinstance(t.ops[0], (ast.Eq, ast.GtE))) or
-        (norm(t.left) == cap and norm(t.comparators[0]) == ivar and isinstance(t.ops[0], (ast.Eq, ast.LtE))))
+    # the capacity the index is compared with: the tracked variable, or the actual length of a buffer read on the spot
+    length_forms = {f"len({dis_buf})", f"{dis_buf}.shape[0]", f"len({al_buf})", f"{al_buf}.shape[0]"}
+
+    def cap_like(e) -> Optional[str]:
+        tx = norm(expand_locals(f.node, e, skip=(cap, ivar)))
+        if tx == cap:
+            return "tracked"
+        if tx in length_forms:
+            return "length"
+        return None
+    mode = None
+    okt = False
+    if isinstance(t, ast.Compare) and len(t.ops) == 1:
+        l_, r_ = t.left, t.comparators[0]
+        if norm(l_) == ivar and cap_like(r_) and isinstance(t.ops[0], (ast.Eq, ast.GtE)):
+            okt, mode = True, cap_like(r_)
+        elif norm(r_) == ivar and cap_like(l_) and isinstance(t.ops[0], (ast.Eq, ast.LtE)):
+            okt, mode = True, cap_like(l_)
     k.check("growth-test", okt, t, "buffers grow as soon as the fill index reaches the capacity (so index < capacity at every store)",
             f"growth test `{norm(t)}` lets the fill index reach the capacity before growing: the next store is out of bounds "
             f"(numba does not bounds-check)")
@@ -830,7 +941,11 @@ def _check_append(ctx, k: K, f: FuncInfo, ML: ast.For, FI: ast.If, cname: str, t
             g_cap = norm(s.value)
     if g_dis is None and g_al is None:
         return k.undecided("growth-same", G, "buffers are not grown through extend_right_*: the capacity-invariant argument does not apply to this design")
-    same = g_dis is not None and g_dis == g_al == g_cap
+    if mode == "length":
+        # nothing to keep in step: the test reads the buffer's own length; both buffers start equal (cap-init) and must grow alike
+        same = g_dis is not None and g_dis == g_al and g_cap is None
+    else:
+        same = g_dis is not None and g_dis == g_al == g_cap
     k.check("growth-same", same, G, "both buffers and the capacity grow by the same amount",
             f"buffers and capacity grow differently (disorders +{g_dis}, alignments +{g_al}, capacity +{g_cap}): the invariant "
             f"capacity == len(buffers) breaks and a later store is out of bounds or candidates are lost")
@@ -838,7 +953,9 @@ def _check_append(ctx, k: K, f: FuncInfo, ML: ast.For, FI: ast.If, cname: str, t
         adef2 = assigned_value(f.node, g_dis)
         pos = False
         for v in adef2:
-            if norm(v) in (f"{cap} // 2", cap) or (isinstance(v, ast.Constant) and isinstance(v.value, int) and v.value >= 1):
+            vx = norm(expand_locals(f.node, v, skip=(cap, ivar)))
+            if vx in (f"{cap} // 2", cap) or (isinstance(v, ast.Constant) and isinstance(v.value, int) and v.value >= 1) or \
+                    (mode == "length" and vx in {f"{x} // 2" for x in length_forms} | length_forms):
                 pos = True
         if g_dis.isdigit() and int(g_dis) >= 1:
             pos = True
@@ -863,7 +980,7 @@ def _check_final(ctx, k: K, f: FuncInfo, ML: ast.For, c2n_name: str, n_name: str
                     sl[norm(t)] = v.slice
     def upper(sx):
         try:
-            return to_lin(sx.upper) if sx is not None and sx.lower is None and sx.upper is not None and sx.step is None else None
+            return to_lin(expand_locals(f.node, sx.upper, skip=(ivar,))) if sx is not None and sx.lower is None and sx.upper is not None and sx.step is None else None
         except ZUnsupported:
             return None
     if dis not in sl or al not in sl:
